@@ -269,6 +269,20 @@ def case_more(rep):
                         "%s.grad(sym=True) is not the symmetric part of grad()" % Fcls.__name__, unit="more:sym-2d", config=("sym", Fcls.__name__, fam2))
             run.compare(mon, "field=%s clause=grad-in-plane" % Fcls.__name__, maxabs(g[:2, :2] - G.reshape(2, 2, 1, 1)), 1e-11,
                         "%s.grad(): in-plane part is not the gradient of the linear map" % Fcls.__name__, unit="more:sym-2d")
+        # ... and on a uniform-grid region (uniform=True) with several cell rows in the radial direction: one radius per cell
+        gx, gy = np.linspace(0.0, 1.5, int(rng.integers(3, 6))), np.linspace(0.7, 2.9, int(rng.integers(3, 6)))
+        mu_ = fem.Grid(gx, gy)
+        ru = fem.RegionQuad(mu_, uniform=True)
+        Xu = mu_.points
+        fu = fem.FieldAxisymmetric(ru, dim=2, values=Xu @ G.T)
+        gu = fu.grad()
+        hqa = np.array([ru.element.function(qp) for qp in ru.quadrature.points])  # (q, a)
+        Xqu = np.einsum("caI,qa->qcI", Xu[mu_.cells], hqa)
+        hoop_ref = (Xqu @ G.T)[..., 1] / Xqu[..., 1]
+        run.compare(mon, "field=FieldAxisymmetric[uniform region] clause=hoop-term", maxabs(np.broadcast_to(gu[2, 2], hoop_ref.shape) - hoop_ref), 1e-11,
+                    "FieldAxisymmetric on a uniform=True region: the hoop term is not u_r / R of every cell", unit="more:axisymmetric-uniform", config=("axi-uniform",))
+        run.compare(mon, "field=FieldAxisymmetric[uniform region] clause=grad-in-plane", maxabs(gu[:2, :2] - G.reshape(2, 2, 1, 1)), 1e-11,
+                    "FieldAxisymmetric on a uniform=True region: in-plane gradient wrong", unit="more:axisymmetric-uniform")
         fa, fb2 = fem.Field(reg2, dim=2, values=u2), fem.Field(reg2, dim=2, values=X2 @ G)
         fc = fem.FieldContainer([fa, fb2])
         # documented: grad may be given per field (sym and add_identity are single flags)
@@ -804,7 +818,7 @@ def _required():
             req.append(fam + ":hess")
         if not gen.FAMILIES[fam].get("mini"):
             req.append(fam + ":exact-integration")
-    req += ["more:" + u for u in ("sliced-template", "bubble", "sym-2d", "extract-lists", "float32-hess", "lagrange-unpermuted", "line-region")]
+    req += ["more:" + u for u in ("sliced-template", "bubble", "sym-2d", "extract-lists", "float32-hess", "lagrange-unpermuted", "line-region", "axisymmetric-uniform")]
     req += ["paths:" + u for u in ("copy-hess", "dhdr-pairing", "extract-flags", "extract-out", "float32-field", "grad-out", "grad-sym", "h-pairing",
                                    "interpolate-out", "lagrange-multicell", "mixed-extract", "reload", "bare-reload", "uniform-hess", "uniform-sheared")]
     req += ["boundary-template:%s:grad" % f for f in BOUNDARY_TEMPLATES]
